@@ -45,6 +45,7 @@ import numpy as np
 
 from harness import core, stubs
 from harness.cones import EXACT_CONES, real_order
+from harness.props import c01_core
 
 TITLE = "whole runs under valid adversarial histories: final P is ε-accurate"
 RULE = ("cases: (algorithm ∈ {PaVeBa, PaVeBaGP-IH/DE, PaVeBaPartialGP-rect/ell, Auer(±empirical β)}, cone with "
@@ -1115,10 +1116,16 @@ def run_case(ctx, case):
     cap = case.get("rounds", ROUND_CAP.get(ctx.tier, 40))
     fstate = {"compared": 0, "skipped": 0}
 
+    core_rec = c01_core.recorder(case)    # INTEGRATION: the whole run through Model/Core.lean (c01_core.py)
+
     def on_round(alg, adv, before, active, t):
         decided_round(ctx, case, alg, adv, before, t, fstate)
+        if core_rec is not None:
+            core_rec.on_round(alg, adv, before, active, t)
 
     res = run_history(ctx, case, cap, on_round=on_round)
+    if core_rec is not None and not res["status"].startswith("crash"):
+        core_rec.finish(ctx, case, res)
     st = res["status"]
     ctx.count("status_" + st.split(":")[0] + (":" + st.split(":", 1)[1] if st.startswith("skipped") else ""))
     ctx.count("rounds_total", res.get("rounds", 0))
